@@ -701,7 +701,9 @@ def run(tier: str, seed: int, replay: str | None = None) -> int:
         spec_ok, ideal_ok, cand, class_repairs = bits[0], bits[1], bits[2:-1], bits[-1]
         cands_all = cand if cands_all is None else [a and b for a, b in zip(cands_all, cand)]
         fails = impl.get("failures") or []
-        if fails and not (cand[0] and not spec_ok):
+        if fails and not (cand[0] and in_defect_class("wrong_type_swallowed", case)):
+            # (a swallowed TypeError is the listed wrong_type_swallowed defect when the case gives a limit as a string and the
+            # faithful model predicts the observed outcome; anything else is a rule crashing silently)
             chk.violation({"reason": "a rule failed internally (swallowed exception) during the run", "failures": fails[:3], "case": case, "impl": impl})
             continue
         if spec_ok:
